@@ -2295,6 +2295,14 @@ ORACLES = {
 }
 
 
+def _r15r16():
+    """R15 / R16 live in harness/props/c13_r15r16.py"""
+    from harness.props import c13_r15r16
+    for k_, v_ in c13_r15r16.ORACLES.items():
+        ORACLES.setdefault(k_, v_)
+    return c13_r15r16
+
+
 def run_oracle(ctx, call, case, nontrivial=True):
     ctx.count((call, repr(case)), nontrivial)
     try:
@@ -2310,6 +2318,7 @@ def run_oracle(ctx, call, case, nontrivial=True):
 
 
 def replay(ctx, rep):
+    _r15r16()
     return ORACLES[rep['call']](rep['case']) is not None
 
 
